@@ -219,3 +219,62 @@ def run(ctx):
                msg=f'decode_three_data reads the data in {sorted(sd)} but the planner requests {sorted(sp)}: the returned list is not sufficient')
     r.require_min(1)
     rc.require_min(6); rd.require_min(7)
+
+    # ---------------- R06g the solvers see the merged list
+    r = ctx.rule('R06g', 'XOR planner: missing-element lists handed to the equation solvers are extracted from the merged (requested + excluded) list',
+                 'a solver that is not told about an excluded parity picks it as the connected parity: the answer names an excluded fragment')
+    from ..vflow import derived_pointers as _dp
+    xf = P.fn('xor_hd_fragments_needed')
+    cgx = callgraph.get(P)
+    # merged buffer: a local allocation that receives elements loaded from both list parameters
+    merged = []
+    for a in [i for i in xf.insts() if i.op == 'call' and i.callee in ('@malloc', '@calloc') and i.res]:
+        A, _x = _dp(xf, [a.res])
+        srcs = set()
+        for st in xf.insts():
+            if st.op == 'store' and st.ops[1] in A:
+                d = xf.defs.get(strip_int_casts(xf, st.ops[0]))
+                if d is not None and d.op == 'load':
+                    for pi in (1, 2):
+                        Ap, _y = _dp(xf, [xf.params[pi][1]])
+                        if d.ops[0] in Ap:
+                            srcs.add(pi)
+        if srcs == {1, 2}:
+            merged.append((a, A))
+    if not merged:
+        r.fail('merged list', func=xf.name, sig='no merged list', loc=xf.mod.src, msg='xor_hd_fragments_needed does not merge fragments_to_reconstruct and fragments_to_exclude into one list of unavailable fragments')
+    else:
+        MA = set().union(*[A for _, A in merged])
+        # solver = function of this unit from which index_of_connected_parity is reachable
+        def reaches_icp(fn_name, seen=None):
+            seen = seen or set()
+            if fn_name in seen or fn_name not in P.fns:
+                return False
+            seen.add(fn_name)
+            g = P.fns[fn_name]
+            for c in g.insts():
+                if c.op == 'call':
+                    for cal in cgx.callees(g, c):
+                        if cal == '@index_of_connected_parity' or reaches_icp(cal, seen):
+                            return True
+            return False
+        n_ = 0
+        for c in [i for i in xf.insts() if i.op == 'call' and i.callee in P.fns and reaches_icp(i.callee)]:
+            for ai, arg in enumerate(c.ops):
+                d = xf.defs.get(strip_ptr_casts(xf, arg)) if isinstance(arg, str) else None
+                if d is not None and d.op == 'call' and d.callee in ('@get_missing_parity', '@get_missing_data'):
+                    n_ += 1
+                    src = strip_ptr_casts(xf, d.ops[1])
+                    inst = f'{c.callee} at line {c.line}: argument {ai} = {d.callee[1:]}(merged list)'
+                    if src in MA:
+                        r.ok(inst, func=xf.name, loc=c.loc)
+                    else:
+                        r.fail(inst, func=xf.name, sig=f'{d.callee[1:]} of {Canon(P, xf).val(src)[:40]} given to {c.callee}', loc=d.loc,
+                               msg=f'{c.callee} receives {d.callee[1:]}({Canon(P, xf).val(src)}), not of the merged list: excluded fragments are unknown to the solver, '
+                                   'which may then select an excluded parity')
+    r.require_min(4)
+
+    r = ctx.rule('R06f', 'bitmaps built from index lists are consumed only through single-bit tests',
+                 'convert_list_to_bitmap sign-extends at index 31: a population count or whole-word comparison miscounts stripes that use fragment 31')
+    shared.rule_list_bitmaps(ctx, P, r)
+    r.require_min(1)
